@@ -25,6 +25,7 @@ LEVEL_NOTE = ('Coverage is judged at settle points (>= 1.5 s after the last dist
 RULE = ('random histories x fault positions; non-trivial = at least one reconnect or re-listing or cluster change happened; distinct = hash of the per-pair request sequence '
         '(list / watch@rv) and stream outcomes')
 ASSUMPTIONS = ['the fake API server delivers a consistent, gap-free log from the requested resourceVersion (as etcd does) or answers 410', 'namespaces are served as given by the patterns (fnmatch)']
+SANITIZE_LOOP_ERRORS = True      # an exception inside an asyncio callback during the simulation is a violation here (runner.run_case_sanitized)
 GATES = {'deletions_of_shown_objects': 50, 'runs': 200, 'streams': 1500, 'reconnects': 600, 'relists': 300, 'resume_checks': 600, 'gone_410': 20, 'coverage_checks': 1500, 'delivered_events': 600,
          'cluster_changes': 150, 'pauses': 15, 'digit_crossings': 10, 'fatal_error_runs': 15, 'bookmarks_seen': 30}
 
